@@ -362,6 +362,8 @@ class Interp:
                 return getattr(v.node, "name", "<lambda>")
             if name == "__qualname__":
                 return v.qualname
+            if name == "__module__" and getattr(v, "module", None) is not None:
+                return v.module.name
             self._attr_error(v, name)
         from .builtins_ import method_of
         m = method_of(self, v, name)
